@@ -16,6 +16,7 @@ mod c14;
 mod c15;
 mod c16;
 mod c17;
+mod c11;
 mod c12;
 mod c18;
 mod memclient;
@@ -57,6 +58,7 @@ fn run(name: &str, args: &Value) -> Value {
         "c20_script" => c20::script(args),
         "c20_tuple" => c20::tuple(args),
         "c18_lifecycle" => c18::lifecycle(args),
+        "c11_limits" => c11::limits(args),
         "c12_ws_batch" => c12::ws_batch(args),
         "c12_http_batch" => c12::http_batch(args),
         "c02_batches" => c02::batches(args),
